@@ -571,7 +571,7 @@ def write_pdb_string(system, conect=True, omit_charges=True, nan_missing_pos=Fal
         atomid += 1
         out.append(terline)
     if conect:
-        number_fmt = '{:>4dt}'
+        number_fmt = '{:>5dt}'
         format_string = 'CONECT '
         for mol_idx, molecule in enumerate(system.molecules):
             for node_idx in molecule:
@@ -579,8 +579,7 @@ def write_pdb_string(system, conect=True, omit_charges=True, nan_missing_pos=Fal
                               for n_idx in molecule[node_idx] if n_idx > node_idx)
                 while todo:
                     current, todo = todo[:4], todo[4:]
-                    fmt = ['CONECT'] + [number_fmt]*(len(current) + 1)
-                    fmt = ' '.join(fmt)
+                    fmt = 'CONECT' + number_fmt*(len(current) + 1)
                     line = formatter.format(fmt, nodeidx2atomid[(mol_idx, node_idx)], *current)
                     out.append(line)
     out.append('END   ')
